@@ -259,7 +259,23 @@ func (a *errAnalyzer) analyse(s *errSite) errVerdict {
 				continue
 			}
 			callee := call.Common().StaticCallee()
-			if callee == nil || callee.Blocks == nil || !isErrorType(call.Type()) {
+			if callee == nil || callee.Blocks == nil {
+				continue
+			}
+			// the error result of the helper: the call itself, or the error component of its result tuple
+			var errResults []ssa.Value
+			if isErrorType(call.Type()) {
+				errResults = append(errResults, call)
+			} else if tup, ok := call.Type().(*types.Tuple); ok {
+				if refs := call.Referrers(); refs != nil {
+					for _, ref := range *refs {
+						if ex, ok := ref.(*ssa.Extract); ok && ex.Index < tup.Len() && isErrorType(tup.At(ex.Index).Type()) {
+							errResults = append(errResults, ex)
+						}
+					}
+				}
+			}
+			if len(errResults) == 0 {
 				continue
 			}
 			for ai, arg := range call.Common().Args {
@@ -267,8 +283,10 @@ func (a *errAnalyzer) analyse(s *errSite) errVerdict {
 					continue
 				}
 				if returnsParam(callee, callee.Params[ai]) {
-					alias[call] = true
-					carriers[call] = true
+					for _, er := range errResults {
+						alias[er] = true
+						carriers[er] = true
+					}
 				}
 			}
 		}
@@ -586,24 +604,60 @@ func (a *errAnalyzer) enter(from, to *ssa.BasicBlock, env pathEnv, visited map[*
 
 // returnsParam: every Return of fn returns the given parameter as its (single) error result.
 func returnsParam(fn *ssa.Function, p *ssa.Parameter) bool {
-	n := 0
-	for _, b := range fn.Blocks {
+	// every return hands the parameter back, or lies on a path where the parameter was tested to be nil
+	if len(fn.Blocks) == 0 {
+		return false
+	}
+	nret := 0
+	okAll := true
+	type st struct {
+		b     *ssa.BasicBlock
+		isNil bool
+	}
+	seen := map[st]bool{}
+	var walk func(b *ssa.BasicBlock, isNil bool)
+	walk = func(b *ssa.BasicBlock, isNil bool) {
+		k := st{b, isNil}
+		if seen[k] || !okAll {
+			return
+		}
+		seen[k] = true
 		for _, in := range b.Instrs {
-			if r, ok := in.(*ssa.Return); ok {
-				n++
+			switch x := in.(type) {
+			case *ssa.Return:
+				nret++
 				found := false
-				for _, x := range r.Results {
-					if x == p {
+				for _, r := range x.Results {
+					if r == p {
 						found = true
 					}
 				}
-				if !found {
-					return false
+				if !found && !isNil {
+					okAll = false
 				}
+				return
+			case *ssa.If:
+				tNil, fNil := isNil, isNil
+				if bo, ok := x.Cond.(*ssa.BinOp); ok && (bo.Op == token.NEQ || bo.Op == token.EQL) {
+					if (bo.X == p && isNilConst(bo.Y)) || (bo.Y == p && isNilConst(bo.X)) {
+						if bo.Op == token.EQL {
+							tNil = true
+						} else {
+							fNil = true
+						}
+					}
+				}
+				walk(b.Succs[0], tNil)
+				walk(b.Succs[1], fNil)
+				return
+			case *ssa.Jump:
+				walk(b.Succs[0], isNil)
+				return
 			}
 		}
 	}
-	return n > 0
+	walk(fn.Blocks[0], false)
+	return okAll && nret > 0
 }
 
 func describe(v ssa.Value) string {
